@@ -420,6 +420,8 @@ def synthetic():
 
 
 MUTANTS = [
+    Mutant('file-name-values-rounded', 'pyphysim/util/misc.py', 'replace_dict_values',
+           [('regex', r'(\n        new_dict\[n\] = v)', r'\n        if isinstance(v, float):\n            v = round(v, 12)\1')], r'C17\.f:replace_dict_values:lossy-name'),
     Mutant('drop-num_updates-from-writer', RES, 'Result._to_dict', [('regex', r'num_updates=self\.num_updates,\s*', '')],
            r'C17\.a:Result\._from_dict:unwritten:num_updates'),
     Mutant('reader-misspells-key', RES, 'Result._from_dict', [('replace', "d['total_list']", "d['total_lst']")],
